@@ -161,6 +161,13 @@ class WorkerRun:
                         recurring=params.delay.defer_by is not None)
                 return key, payload, params
             cons.consume = consume
+            ofin = cons.finish
+
+            async def finish(cons=cons, ofin=ofin):
+                lock = getattr(cons, "pause_lock", None)
+                self.ev("consumer_finish", paused=None if lock is None else lock.locked())
+                return await ofin()
+            cons.finish = finish
             lat = self.sc.get("consumer_latency_us", 0)
             if lat:
                 # a consumer whose pause()/unpause() really take a round trip (as on a networked broker)
